@@ -753,7 +753,9 @@ class BaseSetIndexSortValues(Expr):
 
     @property
     def npartitions(self):
-        return self.operand("npartitions") or len(self._divisions()) - 1
+        # The requested npartitions is an upper bound only: fewer distinct
+        # division values give fewer output partitions
+        return len(self._divisions()) - 1
 
 
 class SetIndex(BaseSetIndexSortValues):
